@@ -61,7 +61,13 @@ def make_executor(prog, harness, opts=None):
     elif (opts or {}).get('cuts') == 'add':
         import cuts
         ex.cuts['(%s.Decimal).add' % prog.pkg] = cuts.cut_add
-    if harness.startswith('vh_lemma_'):
+    elif isinstance((opts or {}).get('cuts'), (list, tuple)):
+        import cuts
+        for name in opts['cuts']:
+            ex.cuts['(%s.Decimal).%s' % (prog.pkg, name)] = cuts.cut_uf_decimal
+    if harness == 'vh_lemma_compose':
+        ex.compose_hook = False
+    elif harness.startswith('vh_lemma_'):
         _, _, recv, meth = harness.split('_', 3)
         ex.summaries.pop('(%s.%s).%s' % (prog.pkg, recv, meth), None)
     return ex
